@@ -520,6 +520,10 @@ m('redo-activetxn-only-at-begin', ['C02'], LR, """			logRecov.activeTxn[logRecor
 m('changed-index-header-id-not-stored', ['C07', 'C09'], CAT, """				columnsCatalogHeap.UpdateTuple(tuple.NewTupleFromSchema(row, ColumnsCatalogSchema()), nil, nil, ColumnsCatalogOID, *columnRows[ii].GetRID(), txn, false)
 """, """				_ = row
 """, ['C07-R6 [RecoveryCatalogFromCatalogPage:changed-header-id-is-stored]'])
+m('hash-index-update-entry-unimplemented', ['C17', 'C07'], 'lib/storage/index/linear_probe_hash_table_index.go', """	htidx.DeleteEntry(oldKey, oldRID, transaction)
+	htidx.InsertEntry(newKey, newRID, transaction)
+""", """	panic("not implemented yet")
+""", ['C17-R1 [LinearProbeHashTableIndex.UpdateEntry:implemented]'])
 # drop the one that needs a helper that does not exist
 M = [x for x in M if x['id'] != 'insert-executor-unlocks-early']
 os.chdir(os.path.dirname(os.path.abspath(__file__)) + '/..')
